@@ -8,8 +8,8 @@ CHECKS = [
          note="trusted: vf/models/dimlang.py and vf/models/dtypes.py (written from docs/api/array.md); bounded ranks<=7, sizes in {0,1,2,3,4,5,7}; numpy/duck/jax backends"),
     dict(property_id="C03", level="exploration", design_ref="DESIGN.md §5 C03",
          technique="complete enumeration of the finite (dtype x category x backend) space against a hand-typed table of the documented hierarchy",
-         text="Every concrete NumPy/ml_dtypes scalar type, JAX key dtypes, structured dtypes x 34 exported classes + 16 user categories x "
-              "NumPy/jax.Array/tracers/keys/TensorFlow/duck backends is enumerated completely (exhaustive: true, ~1.9e4 triples); for the "
+         text="Every concrete NumPy/ml_dtypes scalar type, JAX key dtypes, structured and byte-order-explicit dtypes x 34 exported classes + 24 user categories x "
+              "NumPy/jax.Array/tracers/keys/TensorFlow/duck backends is enumerated completely (exhaustive: true, ~2.8e4 triples); for the "
               "installed library versions this decides the property on its whole finite domain.",
          note="trusted: vf/models/dtypes.py typed from docs/api/array.md; PyTorch/MLX represented by duck arrays with their dtype repr; Python 3.12, numpy 1.26, jax 0.6.2, tensorflow 2.21 only"),
     dict(property_id="C14", level="exploration", design_ref="DESIGN.md §5 C14, §3.1",
@@ -93,15 +93,15 @@ CHECKS = [
     dict(property_id="C11", level="exploration", design_ref="DESIGN.md §5 C11",
          technique="Hypothesis-generated histories of install/uninstall/import operations over a package forest with look-alike names; model = first-import decision by the most recently installed matching active hook; spy typecheckers + inserted-import + ill-typed-call observations",
          text="Several hooks with different checkers (incl. None) active at once, with-block and handle styles, uninstall in any order, imports of parents/"
-              "siblings/look-alikes, imports executed lazily inside function bodies after an uninstall, and the pytest option are interleaved; after each "
+              "siblings/look-alikes, modules that appear later or live in a zip archive, imports executed lazily inside function bodies after an uninstall, and the pytest option are interleaved (plus real pytest sessions and IPython histories in subprocesses); after each "
               "operation every loaded forest module must have exactly the instrumentation the model predicts.",
-         note="9-module forest in a temp dir, bytecode writing off; sys.modules purged between cases only; IPython magic covered through the shared transformer in C10"),
+         note="11-module forest in a temp dir, bytecode writing off; sys.modules purged between cases only; pytest and IPython driven in fresh subprocesses"),
     dict(property_id="C18", level="exploration", design_ref="DESIGN.md §5 C18",
          technique="Hypothesis-generated histories of interpreter runs over one cache directory with bytecode writing on (harness owns sources, mtimes and hook configuration per run); per run and module the observed instrumentation/checker/source version is compared with the model",
          text="Runs choose hooked subsets, one or two hooks with different checkers, import orders incl. nested imports, and source edits; quick simulates runs "
               "in one process (plus a few real-subprocess histories), thorough executes every run in a fresh interpreter. A stale .pyc shows up as the wrong "
               "checker, missing/extra instrumentation or an old source version.",
-         note="4-module forest; CPython 3.12 pyc validation; in-process simulation clears Typechecker.lookup and sys.modules to mimic a new interpreter"),
+         note="5-module forest incl. a helper module imported by the (lazily imported) typechecker module; CPython 3.12 pyc validation; in-process simulation clears Typechecker.lookup and sys.modules to mimic a new interpreter"),
     dict(property_id="C17", level="exploration", design_ref="DESIGN.md §5 C17",
          technique="Hypothesis-generated decorated functions over jax.Array called eagerly (zeros/random/NaN values, repeated) and under jit/vmap/grad/value_and_grad/eval_shape and depth-2 compositions; differential: traced verdict == eager verdict == reference solver",
          text="For each generated signature/shape case and in_axes assignment, every transformation must raise TypeCheckError exactly when the eager call on "
@@ -115,11 +115,11 @@ CHECKS = [
               "leaf label, open context, mutated annotation, changed switch or left-over import hook.",
          note="faults only at call-outs the harness owns; the make_transparent finding is listed in known_findings.json and excluded from generated histories (counted)"),
     dict(property_id="C06", level="exploration", design_ref="DESIGN.md §5 C06",
-         technique="harness-owned deterministic thread schedules (sys.settrace line tracing of jaxtyping's own frames, one runnable thread at a time) drawn by Hypothesis; differential: per-thread transcript interleaved == transcript of the same workload alone",
+         technique="harness-owned deterministic thread schedules (sys.settrace line tracing of jaxtyping's own frames plus sys.monitoring instruction-level points inside jaxtyping/_storage.py, one runnable thread at a time) drawn by Hypothesis; differential: per-thread transcript interleaved == transcript of the same workload alone",
          text="2-3 threads run generated workloads (decorated calls, context blocks, passing/failing array checks, structured PyTree checks with '?' axes) that "
               "share annotation objects and names; context switches are forced every 1-8 source lines of jaxtyping (plus drawn segments), i.e. inside every "
               "window between snapshot/restore, flag set/clear and push/pop. Each thread must obtain exactly the verdicts, listed bindings and transcripts it obtains alone.",
-         note="line-granular pre-emption of jaxtyping's Python code under the GIL; not inside C extensions; the solo run is the oracle"),
+         note="line-granular pre-emption of jaxtyping's Python code (instruction-granular inside _storage.py in half of the cases) under the GIL; not inside C extensions; the solo run is the oracle, plus one absolute invariant on the solo transcript"),
 ]
 _pending = "check not built yet in this round (will be claimed once its machinery is committed)"
 NOT_APPLICABLE = [dict(property_id=f"C{i:02d}", reason=_pending) for i in range(1, 21)
